@@ -83,7 +83,11 @@ def _peptide_case(draw):
             else:
                 residues.append(["LIG", ["C1", "N", "CA"]])
         chains.append(residues)
-    return {"mode": "peptide", "chains": chains, "seed": draw(st.integers(0, 2 ** 32 - 1)), "nf": draw(st.integers(1, 2))}
+    return {"mode": "peptide", "chains": chains, "seed": draw(st.integers(0, 2 ** 32 - 1)), "nf": draw(st.integers(1, 2)),
+            # optional unit cell (atoms scattered over ~1 nm in a 2.5 - 3 nm cell: most legs need the minimum image) and the flags the
+            # named functions are called with (None = defaults)
+            "pcell": draw(st.sampled_from([None, "ortho", "tric"])),
+            "pflags": draw(st.sampled_from([None, None, [True, True], [True, False], [False, True], [False, False]]))}
 
 
 # ------------------------------------------------------------------------------------------------------------------
@@ -261,6 +265,13 @@ def _run_peptide(case):
     rng = np.random.Generator(np.random.PCG64(case["seed"]))
     xyz = rng.normal(0, 1.0, (case["nf"], n, 3)).astype(np.float32)
     traj = md.Trajectory(xyz, top)
+    if case.get("pcell"):
+        traj.unitcell_lengths = np.tile([2.5, 2.75, 3.0], (case["nf"], 1))
+        traj.unitcell_angles = np.tile([90.0, 90.0, 90.0] if case["pcell"] == "ortho" else [75.0, 85.0, 100.0], (case["nf"], 1))
+        labels.append("peptide-cell:" + case["pcell"])
+    fkw = {} if not case.get("pflags") else {"periodic": case["pflags"][0], "opt": case["pflags"][1]}
+    if fkw:
+        labels.append("peptide-flags:%s" % case["pflags"])
 
     def expected(pattern, offsets):
         out = []
@@ -292,7 +303,7 @@ def _run_peptide(case):
     with warnings.catch_warnings():
         warnings.simplefilter("ignore")
         for name, rows in exp.items():
-            idx, vals = getattr(md, "compute_" + name)(traj)
+            idx, vals = getattr(md, "compute_" + name)(traj, **fkw)
             want = np.array([r for _ri, r in rows], dtype=np.int64).reshape(-1, 4)
             got = np.asarray(idx, dtype=np.int64).reshape(-1, 4)
             if got.shape != want.shape or not np.array_equal(got, want):
@@ -303,8 +314,9 @@ def _run_peptide(case):
                 if np.asarray(vals).shape != (case["nf"], 0):
                     viol.append(("named/%s/empty-shape" % name, str(np.asarray(vals).shape)))
                 continue
-            direct = md.compute_dihedrals(traj, want)
-            if vals.shape != direct.shape or not np.allclose(vals, direct, atol=1e-6):
+            direct = md.compute_dihedrals(traj, want, **fkw)
+            d_ = np.abs((np.asarray(vals, dtype=np.float64) - direct + np.pi) % (2 * np.pi) - np.pi) if vals.shape == direct.shape else None
+            if d_ is None or (d_ > 1e-6).any():
                 viol.append(("named/%s/values" % name, "values differ from compute_dihedrals on the same quartets"))
     nres = sum(len(c) for c in case["chains"])
     nontrivial = len(case["chains"]) > 1 or any(nm in ("HOH", "LIG") for c in case["chains"] for nm, _a in c) or \
